@@ -185,14 +185,20 @@ class Task(NamedUIDObject):
                 self.append_z3_assertion(resource_busy_start >= self._start)
                 self.append_z3_assertion(resource_busy_start <= resource_busy_end)
             else:
+                # the delay-in/early-out shifts only make sense for a scheduled task: the
+                # busy interval of an unscheduled optional task stays a single point in the past
                 if early_out > 0:
-                    self.append_z3_assertion(resource_busy_end == self._end - early_out)
+                    busy_end = self._end - early_out
+                    if self.optional:
+                        busy_end = z3.If(self._scheduled, busy_end, self._end)
+                    self.append_z3_assertion(resource_busy_end == busy_end)
                 else:
                     self.append_z3_assertion(resource_busy_end == self._end)
                 if delay_in > 0:
-                    self.append_z3_assertion(
-                        resource_busy_start == self._start + delay_in
-                    )
+                    busy_start = self._start + delay_in
+                    if self.optional:
+                        busy_start = z3.If(self._scheduled, busy_start, self._start)
+                    self.append_z3_assertion(resource_busy_start == busy_start)
                 else:
                     self.append_z3_assertion(resource_busy_start == self._start)
             # finally, store this resource into the resource list
